@@ -1,60 +1,161 @@
 import FiberModel.C19.Model
 /-
-C19 — the property, as an executable predicate over (built configuration, request, observed
-response). It is evaluated by the driver on the *implementation's* observation and is the right-hand
-side of the theorems in Props.lean.
+C19 — the property, as an executable predicate over (configuration as the user wrote it, request,
+observed response). It is evaluated by the driver on the *implementation's* observation and is the
+right-hand side of the theorems in Props.lean.
+
+"Permitted by the configuration" is read off the configuration TEXT here (what each `AllowOrigins`
+entry denotes), not off whatever the constructor stored: `cfgListPermits`. The clauses are written
+once, generic in the two notions they need (`allowAll`, `listPerm`), and instantiated twice:
+`specViolation` (declarative, from the configuration text — what the driver evaluates) and
+`specBuilt` (from the constructor's state). `Origin.lean` proves the two notions equal for every
+configuration the constructor accepts (`origin_permitted_iff`, `build_allowAll`).
 -/
 namespace C19
 open B
 
-/-- "permitted by the configuration": exact list entry, wildcard-subdomain entry, or the allow
-    function. -/
-def permitted (bt : Built) (o : Bytes) : Bool :=
-  bt.origins.contains o || bt.subs.any (·.match o) ||
-    (match bt.cfg.allowFunc with | some f => f o | none => false)
+/-! ### what an `AllowOrigins` entry denotes -/
 
-def isPreflight (q : Request) : Bool :=
-  !q.skip && toLower q.origin ≠ [] && q.method = OPTIONS && q.acrMethod ≠ []
+/-- The serialized origin a configured text stands for: it must read (net/url) as an absolute URL
+    with a host, no `*` in it, nothing behind the host but an optional root path (an empty `?` or
+    `#` marker counts as nothing); the origin is scheme and host (port included, userinfo not) in
+    lower case. `none`: the text denotes no origin. -/
+def originOfText (t : Bytes) : Option Bytes :=
+  match Url.parse t with
+  | none => none
+  | some u =>
+    if u.host ≠ [] ∧ ¬ u.host.contains 42 ∧ (u.path = [] ∨ u.path = b "/") ∧ u.rawQuery = [] ∧ u.fragment = []
+    then some (toLower u.scheme ++ b "://" ++ toLower u.host) else none
+
+/-- The (scheme prefix, dot-led host suffix) a wildcard text `scheme://.domain…` stands for. -/
+def wildcardOfText (t : Bytes) : Option (Bytes × Bytes) :=
+  match Url.parse t with
+  | none => none
+  | some u =>
+    if u.host.head? = some 46 ∧ ¬ u.host.contains 42 ∧ (u.path = [] ∨ u.path = b "/") ∧ u.rawQuery = [] ∧ u.fragment = []
+    then some (toLower u.scheme ++ b "://", toLower u.host) else none
+
+/-- Does entry `e` permit the (lower-cased) origin `o`? A wildcard entry `…://*.…` (the `*` is taken
+    out, blanks around are dropped) permits `scheme://` ++ anything ++ `.domain[:port]`: the same
+    scheme and a DOT-separated host suffix. Any other entry permits exactly the origin it denotes. -/
+def entryPermits (e o : Bytes) : Bool :=
+  match indexOf e (b "://*.") with
+  | some i =>
+    match wildcardOfText (trim (e.take (i + 3) ++ e.drop (i + 4)) 32) with
+    | some (pre, suf) => decide (o.length ≥ pre.length + suf.length) && hasPrefix o pre && hasSuffix o suf
+    | none => false
+  | none => originOfText (trim e 32) == some o
+
+/-- some list entry permits the origin -/
+def cfgListPermits (cfg : Config) (o : Bytes) : Bool := cfg.allowOrigins.any (entryPermits · o)
+
+/-- all origins are allowed: `*` is listed, or nothing at all is configured -/
+def cfgAllowsAll (cfg : Config) : Bool :=
+  cfg.allowOrigins.contains (b "*") || (cfg.allowOrigins.isEmpty && cfg.allowFunc.isNone)
+
+/-! ### reading a `Vary` header: comma-separated field names, optional white space around each -/
+
+/-- the comma-separated pieces of a header value (always at least one) -/
+def splitComma : Bytes → List Bytes
+  | [] => [[]]
+  | c :: cs =>
+    if c = 44 then [] :: splitComma cs
+    else match splitComma cs with
+      | [] => [[c]]
+      | p :: ps => (c :: p) :: ps
+
+def isOWS (c : Nat) : Bool := c == 32 || c == 9
+def trimOWS (s : Bytes) : Bytes := ((s.dropWhile isOWS).reverse.dropWhile isOWS).reverse
+
+/-- `Vary` lists the request header `Origin` (field names compare case-insensitively) -/
+def varyHasOrigin (h : Bytes) : Bool := (splitComma h).any fun p => toLower (trimOWS p) == b "origin"
+
+/-- what an earlier middleware left in `Vary` is a list of field names: no member has a blank inside
+    (`Append` looks for a member by the text ` name`, which such a value could fake) -/
+def varyWF (h : Bytes) : Bool := (splitComma h).all fun p => !(trimOWS p).contains 32
+
+/-! ### the clauses, generic in `allowAll` ("all origins are allowed") and `listPerm` ("a list
+    entry permits the origin") -/
+
+/-- "permitted by the configuration": exact list entry, wildcard-subdomain entry, or the allow
+    function (saying yes). -/
+def permittedW (listPerm : Bytes → Bool) (cfg : Config) (o : Bytes) : Bool :=
+  listPerm o || (match cfg.allowFunc with | some f => f o == some true | none => false)
+
+def isPreflight (cfg : Config) (q : Request) : Bool :=
+  !skipped cfg q && toLower q.origin ≠ [] && q.method = OPTIONS && q.acrMethod ≠ []
 
 /-- clause 1: ACAO only if allowed, and then `*` (iff all origins allowed) or the lower-cased origin -/
-def acaoOK (bt : Built) (q : Request) (r : Response) : Bool :=
+def acaoOK (allowAll : Bool) (listPerm : Bytes → Bool) (cfg : Config) (q : Request) (r : Response) : Bool :=
   match r.acao with
   | none => true
   | some v =>
-    if bt.allowAll then v = b "*"
-    else v = toLower q.origin && v ≠ [] && permitted bt v
+    if allowAll then v = b "*"
+    else v = toLower q.origin && v ≠ [] && permittedW listPerm cfg v
 
 /-- clause 2: never `*` together with credentials; credentials only when configured -/
-def credsOK (bt : Built) (r : Response) : Bool :=
-  (!r.acac) || (bt.cfg.credentials && r.acao.isSome && r.acao ≠ some (b "*"))
+def credsOK (cfg : Config) (r : Response) : Bool :=
+  (!r.acac) || (cfg.credentials && r.acao.isSome && r.acao ≠ some (b "*"))
 
-/-- clause 3: responses that vary by origin carry `Vary: Origin` -/
-def varyOK (bt : Built) (q : Request) (r : Response) : Bool :=
-  bt.allowAll || q.skip || r.vary.contains vOrigin
+/-- clause 3: responses that vary by origin carry `Vary: Origin` (whatever well-formed `Vary` an
+    earlier middleware left, whatever the downstream handler adds with `c.Vary`) -/
+def varyOK (allowAll : Bool) (cfg : Config) (q : Request) (r : Response) : Bool :=
+  r.panicked || allowAll || skipped cfg q || !varyWF q.priorVary || varyHasOrigin r.vary
 
 /-- clause 0: when `Next` tells the middleware to step aside it adds nothing and calls the handler -/
-def skipOK (q : Request) (r : Response) : Bool :=
-  !q.skip || (r.next && !r.status204 && r.acao.isNone && !r.acac && r.vary.isEmpty &&
-              r.allowMethods.isNone && r.allowHeaders.isNone && r.maxAge.isNone && r.expose.isNone && !r.privateNet)
+def skipOK (cfg : Config) (q : Request) (r : Response) : Bool :=
+  !skipped cfg q ||
+    (r.next && !r.status204 && !r.panicked && r.acao.isNone && !r.acac && r.vary = appendAll q.priorVary q.afterVary &&
+     r.allowMethods.isNone && r.allowHeaders.isNone && r.maxAge.isNone && r.expose.isNone && !r.privateNet)
 
-/-- clause 4: preflight gets 204, configured methods/headers, handler not reached;
-    everything else reaches the handler -/
-def preflightOK (bt : Built) (q : Request) (r : Response) : Bool :=
-  if isPreflight q then
+/-- clause 4: preflight gets 204, configured methods/headers/max-age/private-network, handler not
+    reached; everything else reaches the handler -/
+def preflightOK (cfg : Config) (q : Request) (r : Response) : Bool :=
+  if r.panicked then true
+  else if isPreflight cfg q then
     r.status204 && !r.next &&
-    r.allowMethods = (if bt.cfg.allowMethods.isEmpty then none else some (join bt.cfg.allowMethods (b ", "))) &&
-    r.allowHeaders = (if bt.cfg.allowHeaders.isEmpty then (if q.acrHeaders = [] then none else some q.acrHeaders)
-                      else some (join bt.cfg.allowHeaders (b ", "))) &&
-    r.privateNet = (bt.cfg.privateNetwork && q.acrPrivate = b "true")
-  else r.next && !r.status204 && r.allowMethods.isNone && r.allowHeaders.isNone
+    r.allowMethods = (if cfg.allowMethods.isEmpty then none else some (join cfg.allowMethods (b ", "))) &&
+    r.allowHeaders = (if cfg.allowHeaders.isEmpty then (if q.acrHeaders = [] then none else some q.acrHeaders)
+                      else some (join cfg.allowHeaders (b ", "))) &&
+    r.privateNet = (cfg.privateNetwork && q.acrPrivate = b "true") &&
+    r.maxAge = simpleMaxAge cfg
+  else r.next && !r.status204 && r.allowMethods.isNone && r.allowHeaders.isNone && !r.privateNet
 
-/-- The property: first failing clause, or `none`. -/
-def specViolation (bt : Built) (q : Request) (r : Response) : Option String :=
-  if !skipOK q r then some "next-skips-middleware"
-  else if !acaoOK bt q r then some "acao-only-if-allowed"
-  else if !credsOK bt r then some "never-star-with-credentials"
-  else if !varyOK bt q r then some "vary-origin"
-  else if !preflightOK bt q r then some "preflight"
+/-- clause 5: the request dies in `AllowOriginsFunc` only if that function was due (no skip, an
+    Origin, CORS request, not all origins allowed, no list entry permits) and panics on the origin -/
+def panicOK (allowAll : Bool) (listPerm : Bytes → Bool) (cfg : Config) (q : Request) (r : Response) : Bool :=
+  !r.panicked ||
+    (!skipped cfg q && toLower q.origin ≠ [] && !(q.method = OPTIONS && q.acrMethod = []) &&
+     !allowAll && !listPerm (toLower q.origin) &&
+     (match cfg.allowFunc with | some f => f (toLower q.origin) == none | none => false))
+
+/-- The property: first failing clause, or `none`. A request that died in the user's function sent
+    nothing: only clause 5 speaks. -/
+def specViolationW (allowAll : Bool) (listPerm : Bytes → Bool) (cfg : Config) (q : Request) (r : Response) :
+    Option String :=
+  if !panicOK allowAll listPerm cfg q r then some "func-panic"
+  else if r.panicked then none
+  else if !skipOK cfg q r then some "next-skips-middleware"
+  else if !acaoOK allowAll listPerm cfg q r then some "acao-only-if-allowed"
+  else if !credsOK cfg r then some "never-star-with-credentials"
+  else if !varyOK allowAll cfg q r then some "vary-origin"
+  else if !preflightOK cfg q r then some "preflight"
   else none
+
+/-- The exclusion at configuration level: a configuration that asks for credentials AND allows all
+    origins (`*` listed, or nothing configured) must not be served at all (`New` panics). -/
+def ctorViolation (cfg : Config) (served : Bool) : Option String :=
+  if served && cfg.credentials && cfgAllowsAll cfg then some "credentials-with-wildcard-refused" else none
+
+/-- **The property**, read off the configuration text. -/
+def specViolation (cfg : Config) (q : Request) (r : Response) : Option String :=
+  specViolationW (cfgAllowsAll cfg) (cfgListPermits cfg) cfg q r
+
+/-- The same clauses relative to what the constructor stored. -/
+def specBuilt (bt : Built) (q : Request) (r : Response) : Option String :=
+  specViolationW bt.allowAll (listAllows bt) bt.cfg q r
+
+/-- permitted, relative to the constructor's state -/
+def permitted (bt : Built) (o : Bytes) : Bool := permittedW (listAllows bt) bt.cfg o
 
 end C19
